@@ -1122,6 +1122,62 @@ def r03_6(chk: Check, ex, out):
     chk.floor("R03.6", 4)
 
 
+# ------------------------------------------------------------------------------------------------ R03.11
+MATCHERS = ("matchDeflagOrHyb", "matchDeton", "findMatching")
+
+
+def _is_match_call(e) -> bool:
+    return isinstance(e, ast.Call) and isinstance(e.func, ast.Attribute) and e.func.attr in MATCHERS
+
+
+def _tplus_names(scope: ast.AST) -> set:
+    """names bound (anywhere below `scope`) to element 2 of a matching tuple: by unpacking or by a literal subscript"""
+    tuples, out = set(), set()
+    for st in ast.walk(scope):
+        if isinstance(st, ast.Assign) and len(st.targets) == 1 and _is_match_call(st.value) and isinstance(st.targets[0], ast.Name):
+            tuples.add(st.targets[0].id)
+    for st in ast.walk(scope):
+        if not (isinstance(st, ast.Assign) and len(st.targets) == 1):
+            continue
+        t, v = st.targets[0], st.value
+        if isinstance(t, ast.Tuple) and len(t.elts) == 4 and isinstance(t.elts[2], ast.Name) and (_is_match_call(v) or (isinstance(v, ast.Name) and v.id in tuples)):
+            out.add(t.elts[2].id)
+        elif isinstance(t, ast.Name) and _is_tplus_expr(v, tuples, set()):
+            out.add(t.id)
+    return out
+
+
+def _is_tplus_expr(e, tuples, names) -> bool:
+    if isinstance(e, ast.Name):
+        return e.id in names
+    if isinstance(e, ast.Subscript) and isinstance(e.slice, ast.Constant) and e.slice.value == 2:
+        return _is_match_call(e.value) or (isinstance(e.value, ast.Name) and e.value.id in tuples)
+    return False
+
+
+def r03_11(chk: Check):
+    """The hybrid limit v+ <= cs^2(T+)/vw: findMatching may estimate it with cs^2(Tn) first, but the bracket end is (re-)evaluated with the
+    sound speed at the temperature in front of the wall of the matching under test -- otherwise an exact matching just below vJ is not found
+    and the template approximation, which misses Tn, is returned."""
+    S = chk.src
+    fi = S.func(f"{HY}.findMatching")
+    chk.touch(fi.name)
+    aliases = {st.targets[0].id for st in ast.walk(fi.node) if isinstance(st, ast.Assign) and len(st.targets) == 1 and isinstance(st.targets[0], ast.Name)
+               and isinstance(st.value, ast.Attribute) and st.value.attr == "csqHighT"}
+    calls = [c for c in ast.walk(fi.node) if isinstance(c, ast.Call) and c.args
+             and ((isinstance(c.func, ast.Attribute) and c.func.attr == "csqHighT") or (isinstance(c.func, ast.Name) and c.func.id in aliases))]
+    if not calls:
+        raise AnchorMissing("findMatching: no evaluation of csqHighT was found (the hybrid limit of v+)")
+    tuples = {st.targets[0].id for st in ast.walk(fi.node) if isinstance(st, ast.Assign) and len(st.targets) == 1 and isinstance(st.targets[0], ast.Name)
+              and _is_match_call(st.value)}
+    names = _tplus_names(fi.node)
+    at_tp = [c for c in calls if _is_tplus_expr(c.args[0], tuples, names)]
+    chk.ob("R03.11", fi.where(), "findMatching: the hybrid limit of the v+ bracket, v+ = cs^2(T+)/vw, is evaluated with the high-T sound speed at the T+ of a matching "
+           f"(element 2 of matchDeflagOrHyb), not only at Tn ({len(calls)} csqHighT evaluations)", bool(at_tp),
+           "; ".join(f"line {c.lineno}: csqHighT({n(c.args[0])})" for c in calls)[:300], key="vpmax-at-Tplus")
+    chk.floor("R03.11", 1)
+
+
 def rules(chk: Check) -> None:
     r1 = chk.stage(r03_1, chk)
     for grp in (r03_2, r03_3, r03_45):
@@ -1147,3 +1203,4 @@ def rules(chk: Check) -> None:
     from .shared import solver_results_consumed, bracket_offsets_inward
     chk.stage(solver_results_consumed, chk, "R03.10", ("hydrodynamics", "hydrodynamicsTemplateModel"), 10)
     chk.stage(bracket_offsets_inward, chk, "R03.10", ("hydrodynamics", "hydrodynamicsTemplateModel"), 1)
+    chk.stage(r03_11, chk)
